@@ -7,6 +7,7 @@ import (
 	"io"
 	"os"
 	"path/filepath"
+	"strings"
 	"sync"
 	"sync/atomic"
 	"time"
@@ -199,7 +200,10 @@ func OfferedFiles(rep *core.Report, args *core.Args) {
 		{"gap-min-txid-4-at-2", f[3]},
 		{"fork-wrong-pre-checksum", g[2]},
 		{"duplicate-txid-2", f[1]},
-		{"older-txid-1-snapshot-of-fork", nil}, // filled below: not offered (a snapshot legitimately replaces)
+		{"older-txid-1-snapshot-of-fork", nil}, // not offered on the stream (a snapshot from the primary legitimately replaces)
+		// ... but the forwarding endpoint takes transactions of a halt-lock holder, which writes from the primary's
+		// position on: a file that starts the log again (TXID 1) does not extend position 2
+		{"tx-only:txid-1-file-of-another-history-at-2", g[0]},
 		{"truncated-body", f[2][:len(f[2])-37]},
 		{"corrupt-body", corrupt},
 		{"garbage", bytes.Repeat([]byte{0xA7}, 300)},
@@ -213,64 +217,67 @@ func OfferedFiles(rep *core.Report, args *core.Args) {
 			continue
 		}
 		core.Beat("real:offered:" + b.name)
+		txOnly := strings.HasPrefix(b.name, "tx-only:")
 		// ---- (i) replica fed through a harness-controlled stream ----
-		var buf bytes.Buffer
-		frameLTX(&buf, "db", f[0])
-		frameLTX(&buf, "db", f[1])
-		okLen := buf.Len()
-		_ = okLen
-		sc := &scriptedClient{cluster: offeredCluster}
-		d := filepath.Join(base, "victim-replica-"+b.name)
-		_ = os.MkdirAll(d, 0o777)
-		_ = os.WriteFile(filepath.Join(d, "clusterid"), []byte(offeredCluster+"\n"), 0o666)
-		// first stream: the two good files, so that the victim stands at position 2
-		sc.payload = buf.Bytes()
-		victim, err := sim.OpenNode(sim.NodeOpts{Dir: d, Primary: false, PrimaryURL: "http://scripted.invalid", Client: sc})
-		if err != nil {
-			core.Infra("offered: open victim: %v", err)
-		}
-		want := ltx.Pos{}
-		deadline := time.Now().Add(20 * time.Second)
-		for time.Now().Before(deadline) {
-			if db := victim.Store.DB("db"); db != nil && db.Pos().TXID == 2 {
-				want = db.Pos()
-				break
+		if !txOnly {
+			var buf bytes.Buffer
+			frameLTX(&buf, "db", f[0])
+			frameLTX(&buf, "db", f[1])
+			okLen := buf.Len()
+			_ = okLen
+			sc := &scriptedClient{cluster: offeredCluster}
+			d := filepath.Join(base, "victim-replica-"+b.name)
+			_ = os.MkdirAll(d, 0o777)
+			_ = os.WriteFile(filepath.Join(d, "clusterid"), []byte(offeredCluster+"\n"), 0o666)
+			// first stream: the two good files, so that the victim stands at position 2
+			sc.payload = buf.Bytes()
+			victim, err := sim.OpenNode(sim.NodeOpts{Dir: d, Primary: false, PrimaryURL: "http://scripted.invalid", Client: sc})
+			if err != nil {
+				core.Infra("offered: open victim: %v", err)
 			}
-			time.Sleep(time.Millisecond)
+			want := ltx.Pos{}
+			deadline := time.Now().Add(20 * time.Second)
+			for time.Now().Before(deadline) {
+				if db := victim.Store.DB("db"); db != nil && db.Pos().TXID == 2 {
+					want = db.Pos()
+					break
+				}
+				time.Sleep(time.Millisecond)
+			}
+			if want.TXID != 2 {
+				victim.Close()
+				core.Infra("offered: victim replica did not reach TXID 2")
+			}
+			before := facts(victim, l)
+			// second stream: the bad file
+			var buf2 bytes.Buffer
+			frameLTX(&buf2, "db", b.data)
+			sc.mu.Lock()
+			sc.payload = buf2.Bytes()
+			sc.mu.Unlock()
+			sc.served.Store(0)
+			// wait until the stream was consumed and the node asked for a new one (or exited)
+			deadline = time.Now().Add(20 * time.Second)
+			for time.Now().Before(deadline) && sc.served.Load() < 2 && len(victim.Exits()) == 0 {
+				time.Sleep(time.Millisecond)
+			}
+			time.Sleep(5 * time.Millisecond)
+			after := facts(victim, l)
+			rep.Eval(3)
+			rep.Case("offered/stream/"+b.name, true)
+			rep.TracesValidated++
+			detail := map[string]any{"file": b.name, "before": fmt.Sprintf("%+v", before), "after": fmt.Sprintf("%+v", after), "exits": victim.Exits()}
+			if after.pos != before.pos {
+				rep.Violate("C06.rejected-file-leaves-position", "offered/stream/"+b.name+"/position", detail, nil)
+			}
+			if after.image != before.image {
+				rep.Violate("C06.rejected-file-leaves-database", "offered/stream/"+b.name+"/database", detail, nil)
+			}
+			if after.files != before.files {
+				rep.Violate("C06.rejected-file-leaves-log", "offered/stream/"+b.name+"/log", detail, nil)
+			}
+			_ = core.Try(victim.Close)
 		}
-		if want.TXID != 2 {
-			victim.Close()
-			core.Infra("offered: victim replica did not reach TXID 2")
-		}
-		before := facts(victim, l)
-		// second stream: the bad file
-		var buf2 bytes.Buffer
-		frameLTX(&buf2, "db", b.data)
-		sc.mu.Lock()
-		sc.payload = buf2.Bytes()
-		sc.mu.Unlock()
-		sc.served.Store(0)
-		// wait until the stream was consumed and the node asked for a new one (or exited)
-		deadline = time.Now().Add(20 * time.Second)
-		for time.Now().Before(deadline) && sc.served.Load() < 2 && len(victim.Exits()) == 0 {
-			time.Sleep(time.Millisecond)
-		}
-		time.Sleep(5 * time.Millisecond)
-		after := facts(victim, l)
-		rep.Eval(3)
-		rep.Case("offered/stream/"+b.name, true)
-		rep.TracesValidated++
-		detail := map[string]any{"file": b.name, "before": fmt.Sprintf("%+v", before), "after": fmt.Sprintf("%+v", after), "exits": victim.Exits()}
-		if after.pos != before.pos {
-			rep.Violate("C06.rejected-file-leaves-position", "offered/stream/"+b.name+"/position", detail, nil)
-		}
-		if after.image != before.image {
-			rep.Violate("C06.rejected-file-leaves-database", "offered/stream/"+b.name+"/database", detail, nil)
-		}
-		if after.files != before.files {
-			rep.Violate("C06.rejected-file-leaves-log", "offered/stream/"+b.name+"/log", detail, nil)
-		}
-		_ = core.Try(victim.Close)
 
 		// ---- (ii) the same file offered to a primary's /tx endpoint ----
 		pd := filepath.Join(base, "victim-primary-"+b.name)
